@@ -19,10 +19,15 @@ def run_bison():
     os.makedirs(d, exist_ok=True)
     y = os.path.join(vlib.REPO, 'src', 'parser.y')
     xmlp = os.path.join(d, 'parser.xml')
-    if not os.path.exists(xmlp) or os.path.getmtime(xmlp) < os.path.getmtime(y):
+    # the cache is keyed by the content of parser.y, not by its time stamp (a tree restored or copied with old time stamps must not hit a stale cache)
+    import hashlib
+    h = hashlib.sha256(open(y, 'rb').read()).hexdigest()
+    stamp = xmlp + '.sha256'
+    if not os.path.exists(xmlp) or not os.path.exists(stamp) or open(stamp).read().strip() != h:
         rc, o, e = vlib.sh(['bison', '-putap_', '--xml=' + xmlp, '-o', os.path.join(d, 'parser_x.cpp'), y], timeout=300)
         if rc != 0:
             raise GrammarError('bison failed: ' + e[-800:])
+        open(stamp, 'w').write(h)
     return xmlp
 
 
